@@ -1,7 +1,10 @@
 (* Extract.v — extraction of the executable model to OCaml for the runner.
    Only ExtrOcamlBasic's directives are used (bool, option, unit, prod, list, sumbool ...);
    nat, N, Z, positive stay the extracted inductive types. No Extract Constant of ours. *)
-From IT Require Import World Printer MacroModel Serde.
+From IT Require Import World Printer MacroModel Serde Monitor.
+(* field-name independent constructors/accessors for the OCaml glue *)
+Definition mk_node := mkNode.
+Definition node_last (n : node) := last n.
 Require Extraction.
 Require Import ExtrOcamlBasic.
 Extraction Language OCaml.
@@ -10,6 +13,9 @@ Extraction "model.ml"
   empty_arena count is_empty get get_node_id_at id_is_removed free_list node_is_removed
   ancestors predecessors reverse_children children preceding_siblings following_siblings
   descendants traverse reverse_traverse de_run next_traverse prev_traverse
-  pretty_print tree_macro flatten encode decode
+  pretty_print tree_macro tree_macro_full flatten encode decode new_node append_value
   st_is_removed st_as_removed st_reuseable st_reuse
-  nid_eqb.
+  nid_eqb mk_node node_last
+  c01_check c02_check c12_state check_step arena_eqb abs live_b slot_removed_b live_ids
+  spec_ancestors spec_preceding spec_following spec_predecessors spec_children spec_descendants
+  spec_traverse spec_print spec_de_seq de_spec spec_id_at reusable_slots.
